@@ -2,7 +2,10 @@ package main
 
 // C08 — hooks are triggered only by meaningful changes (event type and jqFilter).
 //
-// Implementation side: a real resourceInformer (verif_export_c08.go) on kube-client/fake. The
+// Implementation side: the binding is written as a hook configuration and loaded by the real
+// HookConfig.LoadAndValidate (executeHookOnEvent / watchEvent absent, [], subsets; jqFilter;
+// keepFullObjectsInMemory); the MonitorConfig the loader built goes into
+// a real resourceInformer (verif_export_c08.go) on kube-client/fake. The
 // initial objects are created through the fake client's dynamic tracker and loaded by the real
 // createSharedInformer/loadExistedObjects; every later change is handed to the real
 // OnAdd/OnUpdate/OnDelete → handleWatchEvent; the events the informer emits are collected from its
@@ -25,7 +28,10 @@ import (
 	"k8s.io/apimachinery/pkg/apis/meta/v1/unstructured"
 	"k8s.io/apimachinery/pkg/runtime/schema"
 
+	sigsyaml "sigs.k8s.io/yaml"
+
 	"github.com/flant/kube-client/fake"
+	"github.com/flant/shell-operator/pkg/hook/config"
 	kem "github.com/flant/shell-operator/pkg/kube_events_manager"
 	kemtypes "github.com/flant/shell-operator/pkg/kube_events_manager/types"
 	metricstorage "github.com/flant/shell-operator/pkg/metric_storage"
@@ -142,40 +148,139 @@ func g4TypesArg(ts []kemtypes.WatchEventType) string {
 	return joinStrs(ss)
 }
 
-// c08Setup writes the cfg line, creates the initial objects in the fake cluster and lets the real
-// informer load them.
-func c08Setup(c *Case, types []kemtypes.WatchEventType, useDefault bool, f *jqF, keep bool, initial []map[string]any) *c08Env {
+// c08Binding: the two event-type keys of a kubernetes binding as the hook writes them
+// (nil = key absent, empty = `[]`).
+type c08Binding struct {
+	exec, watch *[]kemtypes.WatchEventType
+	asYAML      bool // render the hook configuration as block YAML instead of JSON
+	keepKey     bool // keep=true: write `keepFullObjectsInMemory: true` instead of leaving the default
+}
+
+func c08Exec(ts []kemtypes.WatchEventType) c08Binding { return c08Binding{exec: &ts} }
+
+func c08KeyArg(l *[]kemtypes.WatchEventType) string {
+	if l == nil {
+		return "~"
+	}
+	return g4TypesArg(*l)
+}
+
+// c08GenKey: absent / [] / a subset in any order, now and then with a repeated item.
+func c08GenKey(rng *Rng, absentPct int) *[]kemtypes.WatchEventType {
+	if rng.Chance(absentPct) {
+		return nil
+	}
+	ts := g4SubsetTypes(rng.Intn(8))
+	for i := len(ts) - 1; i > 0; i-- {
+		j := rng.Intn(i + 1)
+		ts[i], ts[j] = ts[j], ts[i]
+	}
+	if len(ts) > 0 && rng.Chance(10) {
+		ts = append(ts, ts[rng.Intn(len(ts))])
+	}
+	return &ts
+}
+
+// c08GenBinding: executeHookOnEvent absent/[]/subset x watchEvent absent/[]/subset.
+func c08GenBinding(rng *Rng) c08Binding {
+	b := c08Binding{asYAML: rng.Bool(), keepKey: rng.Bool()}
+	switch k := rng.Intn(100); {
+	case k < 45: // the usual binding: executeHookOnEvent only
+		b.exec = c08GenKey(rng, 0)
+	case k < 55: // neither key: the default
+	case k < 70: // a hook that still uses the deprecated key
+		b.watch = c08GenKey(rng, 0)
+	default: // both keys (a migrated hook that kept the old key)
+		b.exec = c08GenKey(rng, 0)
+		b.watch = c08GenKey(rng, 0)
+	}
+	return b
+}
+
+// c08LoadMonitorConfig writes the hook configuration (one kubernetes binding on ConfigMaps of the
+// case's namespace) and loads it with the real HookConfig.LoadAndValidate; the MonitorConfig the
+// loader built is what the informer gets.
+func c08LoadMonitorConfig(b c08Binding, jqText string, keep bool, ns string) (*kem.MonitorConfig, string) {
+	bind := map[string]any{"name": "b", "apiVersion": "v1", "kind": "ConfigMap",
+		"namespace": map[string]any{"nameSelector": map[string]any{"matchNames": []any{ns}}}}
+	lst := func(l []kemtypes.WatchEventType) []any {
+		out := []any{}
+		for _, t := range l {
+			out = append(out, string(t))
+		}
+		return out
+	}
+	if b.exec != nil {
+		bind["executeHookOnEvent"] = lst(*b.exec)
+	}
+	if b.watch != nil {
+		bind["watchEvent"] = lst(*b.watch)
+	}
+	if jqText != "" {
+		bind["jqFilter"] = jqText
+	}
+	if !keep {
+		bind["keepFullObjectsInMemory"] = false
+	} else if b.keepKey {
+		bind["keepFullObjectsInMemory"] = true
+	}
+	doc, err := json.Marshal(map[string]any{"configVersion": "v1", "kubernetes": []any{bind}})
+	if err != nil {
+		return nil, "marshal: " + err.Error()
+	}
+	if b.asYAML {
+		if doc, err = sigsyaml.JSONToYAML(doc); err != nil {
+			return nil, "yaml: " + err.Error()
+		}
+	}
+	hc := &config.HookConfig{}
+	if err := hc.LoadAndValidate(doc); err != nil {
+		return nil, "load: " + firstLine(err.Error())
+	}
+	if len(hc.OnKubernetesEvents) != 1 || hc.OnKubernetesEvents[0].Monitor == nil {
+		return nil, fmt.Sprintf("load: %d kubernetes bindings", len(hc.OnKubernetesEvents))
+	}
+	return hc.OnKubernetesEvents[0].Monitor, ""
+}
+
+// c08Setup writes the cfg line, loads the binding through the real hook-config loader, creates the
+// initial objects in the fake cluster and lets the real informer load them.
+func c08Setup(c *Case, b c08Binding, f *jqF, keep bool, initial []map[string]any) *c08Env {
 	e := &c08Env{c: c, ns: fmt.Sprintf("c08-%d", c.Idx), ids: NewInterner(), states: map[string]map[string]any{}}
 	e.fc = fake.NewFakeCluster(fake.ClusterVersionV121)
-	cfg := &kem.MonitorConfig{ApiVersion: "v1", Kind: "ConfigMap", KeepFullObjectsInMemory: keep}
-	targ := g4TypesArg(types)
-	if useDefault {
-		cfg.WithEventTypes(nil)
-		targ = "default"
-	} else {
-		cfg.WithEventTypes(types)
-	}
 	jqText, ast := "-", "-"
 	if f != nil {
 		jqText, ast = f.text(), g4CanonJSON(f.ast())
-		cfg.JqFilter = jqText
+		e.jq = jqText
 	}
-	e.jq = cfg.JqFilter
 	k := 0
 	if keep {
 		k = 1
+	}
+	cfg, lerr := c08LoadMonitorConfig(b, e.jq, keep, e.ns)
+	ans := "ok"
+	if cfg == nil {
+		ans = lerr
+		cfg = &kem.MonitorConfig{ApiVersion: "v1", Kind: "ConfigMap"}
 	}
 	e.inf = kem.VerifNewInformerC08(e.fc.Client, c08Metrics(), cfg, e.ns, "", func(ev kemtypes.KubeEvent) {
 		e.mu.Lock()
 		e.events = append(e.events, ev)
 		e.mu.Unlock()
 	})
-	c.Op(fmt.Sprintf("cfg types=%s keep=%d jq=%s ast=%s", targ, k, jqText, ast), "ok")
-	if useDefault {
-		got := g4TypesArg(cfg.EventTypes)
+	c.Op(fmt.Sprintf("cfg exec=%s watch=%s keep=%d jq=%s ast=%s", c08KeyArg(b.exec), c08KeyArg(b.watch), k, jqText, ast), ans)
+	got := g4TypesArg(cfg.EventTypes)
+	c.Op("types", got)
+	c.Oracle("types " + got)
+	if cfg.JqFilter != e.jq || cfg.KeepFullObjectsInMemory != keep {
+		c.Op("loader-kept-filter-and-keep", fmt.Sprintf("jq=%q keep=%v", cfg.JqFilter, cfg.KeepFullObjectsInMemory))
+	}
+	if b.exec == nil && b.watch == nil {
 		c.Op("defaults", got)
 		c.Oracle("defaults " + got)
+		c.Note("types:default")
 	}
+	c.Note("exec:" + c08KeyClass(b.exec) + "/watch:" + c08KeyClass(b.watch))
 	// initial objects: through the dynamic tracker, then read back (the state the informer lists)
 	var loadArgs []string
 	for _, o := range initial {
@@ -198,7 +303,7 @@ func c08Setup(c *Case, types []kemtypes.WatchEventType, useDefault bool, f *jqF,
 		}
 	}
 	err := e.inf.CreateSharedInformer()
-	ans := "cache=" + e.cacheText()
+	ans = "cache=" + e.cacheText()
 	if err != nil {
 		ans = "err"
 		e.loadErr = true
@@ -209,6 +314,18 @@ func c08Setup(c *Case, types []kemtypes.WatchEventType, useDefault bool, f *jqF,
 	}
 	e.inf.EnableKubeEventCb()
 	return e
+}
+
+func c08KeyClass(l *[]kemtypes.WatchEventType) string {
+	switch {
+	case l == nil:
+		return "absent"
+	case len(*l) == 0:
+		return "empty"
+	case len(*l) >= 3:
+		return "all"
+	}
+	return "some"
 }
 
 // jqProbe compares the model's evaluator with gojq through the real applyFilter.
@@ -338,6 +455,90 @@ func c08Mutate(rng *Rng, obj map[string]any, f *jqF, where string) map[string]an
 	return o
 }
 
+func g4GetPath(obj map[string]any, p []string) (any, bool) {
+	var cur any = obj
+	for _, k := range p {
+		m, ok := cur.(map[string]any)
+		if !ok {
+			return nil, false
+		}
+		if cur, ok = m[k]; !ok {
+			return nil, false
+		}
+	}
+	return cur, true
+}
+
+// c08Retype returns a copy of obj in which one leaf (inside the filter's paths when there are any)
+// changes its TYPE while its JSON text stays the same: a value becomes the string holding its JSON
+// text (3 -> "3", true -> "true", null/absent -> "null", [0,"p"] -> "[0,\"p\"]", {"n":1} -> "{\"n\":1}"),
+// and a string that holds a JSON text becomes that value ("3" -> 3, "null" -> null or absent).
+// The projection changes (another value), its text inside a string does not. ok=false: no leaf fits.
+func c08Retype(rng *Rng, obj map[string]any, f *jqF) (map[string]any, bool) {
+	o := g4DeepCopyJSON(obj)
+	used := map[string]bool{}
+	if f != nil {
+		f.paths(used)
+	}
+	inside := func(l []string) bool {
+		if f == nil || used["*"] {
+			return true
+		}
+		ls := strings.Join(l, ".")
+		for p := range used {
+			if p == ls || strings.HasPrefix(ls, p+".") {
+				return true
+			}
+		}
+		return false
+	}
+	var cand [][]string
+	for _, l := range g4ObjLeaves {
+		if inside(l) {
+			cand = append(cand, l)
+		}
+	}
+	if len(cand) == 0 {
+		cand = g4ObjLeaves
+	}
+	cand = append([][]string{}, cand...)
+	rng.Shuffle(len(cand), func(i, j int) { cand[i], cand[j] = cand[j], cand[i] })
+	for _, l := range cand {
+		label := l[0] == "metadata" // label values stay strings: absent <-> "null" only
+		v, has := g4GetPath(o, l)
+		switch {
+		case !has:
+			g4SetPath(o, l, "null")
+			return o, true
+		case label:
+			if v == "null" {
+				g4DelPath(o, l)
+				return o, true
+			}
+			continue
+		}
+		if str, isStr := v.(string); isStr {
+			var parsed any
+			if err := json.Unmarshal([]byte(str), &parsed); err != nil {
+				continue // an ordinary string
+			}
+			if parsed == nil && rng.Bool() {
+				g4DelPath(o, l)
+			} else {
+				g4SetPath(o, l, g4Intify(parsed))
+			}
+			return o, true
+		}
+		b, err := json.Marshal(v)
+		if err != nil {
+			continue
+		}
+		g4SetPath(o, l, string(b))
+		return o, true
+	}
+	return o, false
+}
+
 // c08History runs one scripted history on a prepared informer.
 func c08History(e *c08Env, rng *Rng, f *jqF, names []string, steps int) (changes int) {
 	probed := map[string]bool{}
@@ -375,20 +576,20 @@ func c08History(e *c08Env, rng *Rng, f *jqF, names []string, steps int) (changes
 		}
 		k := rng.Intn(100)
 		switch {
-		case k < 25: // resync / relist: the same state again
+		case k < 22: // resync / relist: the same state again
 			t := kemtypes.WatchEventModified
 			if rng.Chance(30) {
 				t = kemtypes.WatchEventAdded
 			}
 			e.deliver(t, name, cur)
 			e.c.Note("redeliver:resync")
-		case k < 50:
+		case k < 44:
 			o := c08Mutate(rng, cur, f, "outside")
 			probe(o)
 			e.deliver(kemtypes.WatchEventModified, name, o)
 			e.c.Note("change:outside-filter-paths")
 			changes++
-		case k < 80:
+		case k < 68:
 			o := c08Mutate(rng, cur, f, "inside")
 			probe(o)
 			t := kemtypes.WatchEventModified
@@ -398,6 +599,29 @@ func c08History(e *c08Env, rng *Rng, f *jqF, names []string, steps int) (changes
 			e.deliver(t, name, o)
 			e.c.Note("change:inside-filter-paths")
 			changes++
+		case k < 80: // the projection changes its type, not its text: 3 <-> "3", null <-> "null" ...
+			o, ok := c08Retype(rng, cur, f)
+			if !ok {
+				o = c08Mutate(rng, cur, f, "inside")
+				e.c.Note("change:inside-filter-paths")
+			} else {
+				e.c.Note("change:retype-same-text")
+			}
+			probe(o)
+			t := kemtypes.WatchEventModified
+			if rng.Chance(10) {
+				t = kemtypes.WatchEventAdded
+			}
+			e.deliver(t, name, o)
+			changes++
+			if ok && rng.Chance(50) { // and back
+				if o2, ok2 := c08Retype(rng, o, f); ok2 {
+					probe(o2)
+					e.deliver(kemtypes.WatchEventModified, name, o2)
+					e.c.Note("change:retype-same-text")
+					changes++
+				}
+			}
 		case k < 88: // A -> B -> A
 			o := c08Mutate(rng, cur, f, "any")
 			probe(o)
@@ -433,7 +657,7 @@ func c08Obj(ns, name string, replicas int64, a any, x int64) map[string]any {
 }
 
 func runC08(r *Run) {
-	r.Rule = "per case: one real resourceInformer on kube-client/fake with a jq program drawn from the fragment (paths incl. missing keys and paths through scalars, literals, object/array construction, `//`; results object/array/scalar/null/error; 12% with two or three expressions joined by `,` = several outputs, merged the legacy way) or no filter, one of the 8 subsets of {Added,Modified,Deleted} (or the WithEventTypes(nil) default), keepFullObjectsInMemory on/off; 0-3 objects loaded by the real loadExistedObjects, then a history of 3-14 changes over 1-3 objects handed to the real OnAdd/OnUpdate/OnDelete: informer-start replay of the listed objects, resync of the identical state, changes only outside the filter's paths, changes inside them, A->B->A, deletes (also with a final state that differs from the cached one), re-adds, Modified and Deleted for objects the informer does not know. Every distinct object state is also run through the real applyFilter and compared with the model's jq evaluator. A case is non-trivial when it delivers >= 3 changes and contains at least one re-delivery or outside-only change; distinct = distinct op-line sequences. `cluster` cases start the informer on the fake client and change the objects in the cluster instead."
+	r.Rule = "per case: one real resourceInformer on kube-client/fake with a jq program drawn from the fragment (paths incl. missing keys and paths through scalars, literals, object/array construction, `//`; results object/array/scalar/null/error; 12% with two or three expressions joined by `,` = several outputs, merged the legacy way) or no filter, the binding written as a hook configuration (configVersion v1, rendered as JSON or as block YAML) and loaded by the real HookConfig.LoadAndValidate — executeHookOnEvent absent / [] / any subset of {Added,Modified,Deleted} in any order, now and then with a repeated item, x the deprecated watchEvent absent / [] / any subset (45% executeHookOnEvent only, 10% neither key = the default, 15% watchEvent only, 30% both keys), jqFilter, keepFullObjectsInMemory false / true / left out — the MonitorConfig the loader built is what the informer gets; 0-3 objects loaded by the real loadExistedObjects, then a history of 3-14 changes over 1-3 objects handed to the real OnAdd/OnUpdate/OnDelete: informer-start replay of the listed objects, resync of the identical state, changes only outside the filter's paths, changes inside them, changes of the TYPE of a leaf inside them with the same JSON text (3 <-> '3', true <-> 'true', absent/null <-> 'null', an array or object <-> the string holding its text; 12% of the steps, half of them followed by the way back), A->B->A, deletes (also with a final state that differs from the cached one), re-adds, Modified and Deleted for objects the informer does not know. Every distinct object state is also run through the real applyFilter and compared with the model's jq evaluator. A case is non-trivial when it delivers >= 3 changes and contains at least one re-delivery or outside-only change; distinct = distinct op-line sequences. `cluster` cases start the informer on the fake client and change the objects in the cluster instead."
 
 	// ---- corpus: the counterexamples of the repaired defect (filter results that are not objects)
 	corpus := []struct {
@@ -459,7 +683,7 @@ func runC08(r *Run) {
 			c.Nontrivial = true
 			ns := fmt.Sprintf("c08-%d", c.Idx)
 			o1 := c08Obj(ns, "o1", 1, "x", 0)
-			e := c08Setup(c, g4AllTypes, false, cc.f, true, []map[string]any{o1})
+			e := c08Setup(c, c08Exec(g4AllTypes), cc.f, true, []map[string]any{o1})
 			o1 = e.states["o1"]
 			e.jqProbe(o1)
 			e.deliver(kemtypes.WatchEventAdded, "o1", o1) // start replay: silent
@@ -478,7 +702,7 @@ func runC08(r *Run) {
 		c.Desc = "corpus: a cached object is deleted in a state the filter fails on (.spec.replicas.x, replicas a number): Deleted is reported all the same"
 		c.Nontrivial = true
 		ns := fmt.Sprintf("c08-%d", c.Idx)
-		e := c08Setup(c, g4AllTypes, false, g4Path("spec", "replicas", "x"), true, nil)
+		e := c08Setup(c, c08Exec(g4AllTypes), g4Path("spec", "replicas", "x"), true, nil)
 		good := c08Obj(ns, "o1", 1, "x", 0)
 		g4DelPath(good, []string{"spec", "replicas"})
 		e.jqProbe(good)
@@ -492,7 +716,7 @@ func runC08(r *Run) {
 		c.Desc = "corpus: a filter that fails on the object (.spec.replicas.x on a number) — the change is ignored"
 		c.Nontrivial = true
 		ns := fmt.Sprintf("c08-%d", c.Idx)
-		e := c08Setup(c, g4AllTypes, false, g4Path("spec", "replicas", "x"), true, nil)
+		e := c08Setup(c, c08Exec(g4AllTypes), g4Path("spec", "replicas", "x"), true, nil)
 		o1 := c08Obj(ns, "o1", 1, "x", 0)
 		e.jqProbe(o1)
 		e.deliver(kemtypes.WatchEventAdded, "o1", o1)
@@ -503,6 +727,64 @@ func runC08(r *Run) {
 		e.deliver(kemtypes.WatchEventModified, "o1", o1)
 	})
 
+	// ---- corpus: the projection changes its type but not its text (scalar filters)
+	r.One(9, func(c *Case, _ *Rng) {
+		c.Desc = "corpus: .spec.replicas 3 -> \"3\" -> 3 and .metadata.labels.l absent -> \"null\" -> absent: another projection every time, Modified fires"
+		c.Nontrivial = true
+		ns := fmt.Sprintf("c08-%d", c.Idx)
+		f := g4ArrF(g4Path("spec", "replicas"), g4Path("metadata", "labels", "l"))
+		o1 := c08Obj(ns, "o1", 3, "x", 0)
+		e := c08Setup(c, c08Exec(g4AllTypes), f, true, []map[string]any{o1})
+		cur := e.states["o1"]
+		e.jqProbe(cur)
+		for _, ch := range []struct {
+			path []string
+			v    any
+			del  bool
+		}{
+			{[]string{"spec", "replicas"}, "3", false}, {[]string{"spec", "replicas"}, int64(3), false},
+			{[]string{"metadata", "labels", "l"}, "null", false}, {[]string{"metadata", "labels", "l"}, nil, true},
+			{[]string{"spec", "replicas"}, nil, false}, {[]string{"spec", "replicas"}, "null", false},
+		} {
+			cur = g4DeepCopyJSON(cur)
+			if ch.del {
+				g4DelPath(cur, ch.path)
+			} else {
+				g4SetPath(cur, ch.path, ch.v)
+			}
+			e.jqProbe(cur)
+			e.deliver(kemtypes.WatchEventModified, "o1", cur)
+			e.c.Note("change:retype-same-text")
+		}
+	})
+	// ---- corpus: a binding with both keys — executeHookOnEvent (also an empty one) is the one that counts
+	for i, bb := range []struct {
+		desc        string
+		exec, watch *[]kemtypes.WatchEventType
+	}{
+		{"executeHookOnEvent: [] + watchEvent: [Added, Modified, Deleted]: a snapshot-only binding, nothing triggers", &[]kemtypes.WatchEventType{}, &g4AllTypes},
+		{"executeHookOnEvent: [Deleted] + watchEvent: [Added]", &[]kemtypes.WatchEventType{kemtypes.WatchEventDeleted}, &[]kemtypes.WatchEventType{kemtypes.WatchEventAdded}},
+		{"watchEvent: [] alone: nothing triggers", nil, &[]kemtypes.WatchEventType{}},
+		{"watchEvent: [Modified] alone (deprecated alias)", nil, &[]kemtypes.WatchEventType{kemtypes.WatchEventModified}},
+		{"neither key: all three", nil, nil},
+	} {
+		bb, i := bb, i
+		r.One(10+i, func(c *Case, _ *Rng) {
+			c.Desc = "corpus: " + bb.desc
+			c.Nontrivial = true
+			ns := fmt.Sprintf("c08-%d", c.Idx)
+			e := c08Setup(c, c08Binding{exec: bb.exec, watch: bb.watch, asYAML: i%2 == 0}, g4Path("spec", "replicas"), true, nil)
+			o1 := c08Obj(ns, "o1", 1, "x", 0)
+			e.jqProbe(o1)
+			e.deliver(kemtypes.WatchEventAdded, "o1", o1)
+			o2 := c08Obj(ns, "o1", 2, "x", 0)
+			e.jqProbe(o2)
+			e.deliver(kemtypes.WatchEventModified, "o1", o2)
+			e.deliver(kemtypes.WatchEventModified, "o1", o2)
+			e.deliver(kemtypes.WatchEventDeleted, "o1", o2)
+		})
+	}
+
 	// ---- generated histories
 	n := r.N(3000, 60000)
 	r.Cases(100, n, 0, func(c *Case, rng *Rng) {
@@ -510,8 +792,7 @@ func runC08(r *Run) {
 		if rng.Chance(85) {
 			f = g4GenFilter(rng, 2)
 		}
-		mask := rng.Intn(8)
-		useDefault := rng.Chance(10)
+		b := c08GenBinding(rng)
 		keep := rng.Chance(60)
 		names := []string{"o1", "o2", "o3"}[:rng.Range(1, 3)]
 		var initial []map[string]any
@@ -521,15 +802,10 @@ func runC08(r *Run) {
 				initial = append(initial, g4GenObject(rng, ns, nm))
 			}
 		}
-		e := c08Setup(c, g4SubsetTypes(mask), useDefault, f, keep, initial)
+		e := c08Setup(c, b, f, keep, initial)
 		steps := rng.Range(3, 14)
 		ch := c08History(e, rng, f, names, steps)
 		c.Nontrivial = ch >= 3 && (c.notes["redeliver:resync"]+c.notes["redeliver:start-replay"]+c.notes["change:outside-filter-paths"] > 0)
-		if useDefault {
-			c.Note("types:default")
-		} else {
-			c.Note(fmt.Sprintf("types:mask%d", mask))
-		}
 		if f == nil {
 			c.Note("filter:none")
 		} else {
@@ -545,10 +821,10 @@ func runC08(r *Run) {
 
 	if r.Thorough() {
 		// exhaustive small scope: 8 subsets x 6 filters x every history of length <= 4 over the alphabet
-		// {same state, change outside, change inside, delete, add} on one object
+		// {same state, change outside, change inside, delete, add, retype} on one object
 		filters := []*jqF{nil, g4Path("spec", "replicas"), g4ArrF(g4Path("spec", "replicas"), g4Path("spec", "a")), g4Path("nope"),
 			g4ObjF(g4Fld("r", g4Path("spec", "replicas"))), g4AltF(g4Path("spec", "a"), g4Lit(int64(0)))}
-		const A = 5
+		const A = 6
 		total := 0
 		for l, p := 1, A; l <= 4; l++ {
 			total += p
@@ -568,7 +844,7 @@ func runC08(r *Run) {
 			}
 			ns := fmt.Sprintf("c08-%d", c.Idx)
 			o := c08Obj(ns, "o1", 1, "x", 0)
-			e := c08Setup(c, g4SubsetTypes(mask), false, f, true, []map[string]any{o})
+			e := c08Setup(c, c08Exec(g4SubsetTypes(mask)), f, true, []map[string]any{o})
 			o = e.states["o1"]
 			e.jqProbe(o)
 			live := true
@@ -601,12 +877,25 @@ func runC08(r *Run) {
 				case a == 3:
 					e.deliver(kemtypes.WatchEventDeleted, "o1", o)
 					live = false
+				case a == 5: // spec.replicas changes its type, not its text: n <-> "n"
+					o = g4DeepCopyJSON(o)
+					if v, _ := g4GetPath(o, []string{"spec", "replicas"}); v != nil {
+						if str, isStr := v.(string); isStr {
+							var n int64
+							fmt.Sscan(str, &n)
+							g4SetPath(o, []string{"spec", "replicas"}, n)
+						} else {
+							g4SetPath(o, []string{"spec", "replicas"}, fmt.Sprint(v))
+						}
+					}
+					e.jqProbe(o)
+					e.deliver(kemtypes.WatchEventModified, "o1", o)
 				}
 			}
 			c.Nontrivial = l >= 3
 		})
 		r.Exhaust = true
-		r.Extra["exhaustive_scope"] = fmt.Sprintf("8 event-type subsets x %d filters x all %d histories of length <= 4 over {resync, change outside, change inside, delete, add} on one object", len(filters), per)
+		r.Extra["exhaustive_scope"] = fmt.Sprintf("8 event-type subsets x %d filters x all %d histories of length <= 4 over {resync, change outside, change inside, delete, add, retype n<->\"n\"} on one object", len(filters), per)
 	}
 }
 
@@ -619,7 +908,7 @@ func c08ClusterCase(c *Case, rng *Rng) {
 	if rng.Chance(85) {
 		f = g4GenFilter(rng, 2)
 	}
-	mask := rng.Intn(8)
+	b := c08GenBinding(rng)
 	keep := rng.Bool()
 	ns := fmt.Sprintf("c08-%d", c.Idx)
 	names := []string{"o1", "o2"}[:rng.Range(1, 2)]
@@ -629,7 +918,7 @@ func c08ClusterCase(c *Case, rng *Rng) {
 			initial = append(initial, g4GenObject(rng, ns, nm))
 		}
 	}
-	e := c08Setup(c, g4SubsetTypes(mask), false, f, keep, initial)
+	e := c08Setup(c, b, f, keep, initial)
 	e.hide = "zz"
 	if e.loadErr {
 		// the monitor would not be created at all (CreateInformers returns the error): nothing to start
@@ -706,9 +995,19 @@ func c08ClusterCase(c *Case, rng *Rng) {
 				return
 			}
 		default:
-			where := PickOne(rng, []string{"inside", "outside", "outside"})
-			next = c08Mutate(rng, cur, f, where)
-			e.c.Note("change:" + where + "-filter-paths")
+			where := PickOne(rng, []string{"inside", "outside", "outside", "retype"})
+			ok := false
+			if where == "retype" {
+				if next, ok = c08Retype(rng, cur, f); ok {
+					e.c.Note("change:retype-same-text")
+				} else {
+					where = "inside"
+				}
+			}
+			if !ok {
+				next = c08Mutate(rng, cur, f, where)
+				e.c.Note("change:" + where + "-filter-paths")
+			}
 			t = kemtypes.WatchEventModified
 			if _, err := dyn.Update(context.TODO(), &unstructured.Unstructured{Object: g4DeepCopyJSON(next)}, metav1.UpdateOptions{}); err != nil {
 				c.Inconcl = "update failed: " + err.Error()
